@@ -25,7 +25,7 @@ Lemma insert_empty_ok G rem E acc b outo b' r :
   r = Ok tt /\ inv ty G rem E (if is_dup acc [] then acc else ([], out_of outo) :: acc) b' /\
   b_last b' = b_last b.
 Proof.
-  intros [Hm Hs Htop Hlen Hbud HG] Hout Hk Hdup Hc.
+  intros [Hm Hs Htop Hlen Hbud HG Hna] Hout Hk Hdup Hc.
   destruct Hs as [Hsh Hu HW Hd HL]. rewrite Hk in Hsh.
   destruct (b_stack b) as [|root rest] eqn:Hst; [destruct Hsh|]. cbn [shape] in Hsh.
   destruct Hsh as (Hrl & ->).
@@ -70,6 +70,7 @@ Proof.
       * cbn [Lstk u_node u_last]. rewrite Hrl, app_nil_r. unfold lang_node. cbn [n_final n_fout n_trans].
         rewrite Hrt. reflexivity.
     + unfold top_empty. cbn [last_opt]. intros u Hu'. inversion Hu'; subst. cbn [u_node n_trans]. exact Hrt.
+    + unfold len in *. cbn [length] in *. lia.
 Qed.
 
 Lemma firstn_app_exact {A} (l1 l2 : list A) n : length l1 = n -> firstn n (l1 ++ l2) = l1.
@@ -108,6 +109,7 @@ Proof.
     inversion Hc; subst b' r; clear Hc. exists E. split; [reflexivity|]. split; [|reflexivity].
     constructor; cbn [with_stack b_stack b_len]; auto.
     + eapply minv_frame; [..|exact Hm]; reflexivity.
+    + unfold len in *. lia.
     + unfold len in *. lia.
   - (* a new key *)
     assert (Hd0 : is_dup acc bs = false).
@@ -158,7 +160,7 @@ Proof.
     assert (Hkey : firstn p k ++ b1 :: r1 = bs).
     { rewrite <- C1, <- Hsk. apply firstn_skipn. }
     rewrite Hkey in Ss. replace (psum lo + o2) with out in Ss by lia.
-    constructor; cbn [with_stack b_stack b_len lastkey]; [| | exact St | | | exact HG].
+    constructor; cbn [with_stack b_stack b_len lastkey]; [| | exact St | | | exact HG | ].
     + eapply minv_frame; [..|exact Hm3]; reflexivity.
     + cbn [rev]. exact Ss.
     + rewrite F2, Hlen. unfold len. cbn [length]. lia.
@@ -166,6 +168,7 @@ Proof.
       assert (length bs = p + length (b1 :: r1))%nat.
       { rewrite <- Hsk, skipn_length. lia. }
       unfold len in *. rewrite app_length in Flen. cbn [length] in *. lia.
+    + unfold len in *. cbn [length] in *. lia.
 Qed.
 
 (* ---------- one accepted call ---------- *)
@@ -174,7 +177,7 @@ Proof. destruct k; cbn; discriminate. Qed.
 
 Lemma inv_with_last G rem E acc b l : inv ty G rem E acc b -> inv ty G rem E acc (with_last b l).
 Proof.
-  intros [Hm Hs Htop Hlen Hbud HG]. constructor; cbn [with_last b_stack b_len]; auto.
+  intros [Hm Hs Htop Hlen Hbud HG Hna]. constructor; cbn [with_last b_stack b_len]; auto.
   eapply minv_frame; [..|exact Hm]; reflexivity.
 Qed.
 
@@ -226,7 +229,7 @@ Proof.
   { destruct k as [|b0 bs0] eqn:Hk.
     - assert (Hlk : lastkey acc = []) by (destruct (lastkey acc); [reflexivity|cbn in Hcmp; congruence]).
       assert (Hinv0 : inv ty G rem E acc (with_last b (Some []))).
-      { destruct Hinv1 as [A1 A2 A3 A4 A5 A6]. constructor; auto. }
+      { destruct Hinv1 as [A1 A2 A3 A4 A5 A6 A7]. constructor; auto. }
       destruct (insert_empty_ok G rem E acc _ outo b' r Hinv0) as (Hr & Hi & Hl); auto; [lia|].
       exists E. auto.
     - destruct (insert_nonempty_ok G rem E acc _ b0 bs0 outo b' r Hinv1) as (E' & Hr & Hi & Hl); auto; [lia|].
@@ -249,7 +252,7 @@ Proof.
     inversion Hcalls as [|? ? Hx Hrest]; subst. inversion Hok as [|? ? Ho Hoks]; subst.
     cbn [map key_bytes fold_right] in Hinv.
     assert (Hinv' : inv ty G (len (op_key o) + (key_bytes (map op_key ops) + rem)) E acc b).
-    { destruct Hinv as [A1 A2 A3 A4 A5 A6]. constructor; auto. unfold key_bytes in *. lia. }
+    { destruct Hinv as [A1 A2 A3 A4 A5 A6 A7]. constructor; auto; unfold key_bytes in *; lia. }
     destruct (apply_op_ok G _ E acc b o l' Hinv' Hlast Ho Hsc) as (E1 & b1 & Hap & Hi1 & Hl1 & Hbl1).
     cbn [run_extend]. rewrite Hap. subst l'.
     destruct (IH G rem E1 _ b1 Hi1 Hl1 Hoks Hrest) as (E' & acc' & b' & Hrun & Hi' & Hrev).
